@@ -924,6 +924,9 @@ class Engine:
         end_time = self.global_time + interval
         emit_time = self.global_time + self.emit_step
         if self.global_time_precision is not None:
+            # keep the end of the interval on the same decimal grid as
+            # the process times, which are rounded below
+            end_time = round(end_time, self.global_time_precision)
             emit_time = round(emit_time, self.global_time_precision)
 
         while self.global_time < end_time or force_complete:
@@ -1007,6 +1010,9 @@ class Engine:
                 # at least one process ran within the interval
                 # increase the time, apply updates, and continue
                 self.global_time += full_step
+                if self.global_time_precision is not None:
+                    self.global_time = round(
+                        self.global_time, self.global_time_precision)
 
                 # advance all quiet processes to current time
                 for quiet in quiet_paths:
